@@ -14,9 +14,7 @@
     list (only `in`, `add`, `[]=`, `[]` are used);
   * `if node._parent:` (dot.py) is the flag `hasParent` (false exactly for the system root:
     `Node` defines neither `__bool__` nor `__len__`);
-  * `if parent_graph_node:` (rdf.py) is the truthiness of an `rdflib` term: `None` is falsy, a
-    `URIRef` (non-empty `str`) is truthy, `Literal(data_id)` is truthy iff the Python value is
-    (`Literal.__bool__`): `Literal(0)` and `Literal("")` are FALSY;
+  * `if parent_graph_node is not None:` (rdf.py): the parent term is an `Option`;
   * an `rdflib.Graph` is a set of triples: `Graph.add` is modelled by `graphAdd` (append unless
     present).
 -/
@@ -71,11 +69,12 @@ def dotDeclLoop (unique : Bool) : List Key → List T → List (Key × Option St
 
 /-- Declared graph nodes of `node_to_dot`, in order, with their `label` attribute (`none` = no
 attribute list).  `treeName` is `node.tree.name`.  With `add_self` the start node is declared
-first: with `label=<tree name>` (and `shape="box"`) when it is the system root, WITHOUT a label
-otherwise (`attr_def = {}`); its key is *not* entered into `used_keys`. -/
+first: with `label=<tree name>` (and `shape="box"`) when it is the system root, with
+`label=node.name` otherwise; its key is entered into `used_keys` right away
+(`used_keys.add(_key(node))`), so a clone among the descendants is not declared again. -/
 def dotNodes (treeName : String) (unique addSelf hasParent : Bool) (node : T) : List (Key × Option String) :=
-  (if addSelf then [(keyOf unique node, if hasParent then none else some treeName)] else [])
-    ++ dotDeclLoop unique [] (iterPre node)
+  (if addSelf then [(keyOf unique node, some (if hasParent then node.name else treeName))] else [])
+    ++ dotDeclLoop unique (if addSelf then [keyOf unique node] else []) (iterPre node)
 
 /-- The edge loop:
 ```
@@ -160,11 +159,6 @@ inductive Subj where
   | lit (d : DataId)
 deriving DecidableEq, Repr, Inhabited
 
-/-- `bool(term)`: a URIRef is a non-empty `str`; `Literal.__bool__` is the truthiness of the value. -/
-def Subj.truthy : Subj → Bool
-  | .sysRoot => true
-  | .lit d => d.truthy
-
 inductive Triple where
   | hasChild (p : Subj) (c : DataId)
   | name (s : Subj) (v : String)
@@ -180,14 +174,14 @@ def graphAddAll (g : List Triple) (ts : List Triple) : List Triple := ts.foldl g
 /-- The triples `_add_child_node(graph, parent_graph_node, tree_node, index, None)` adds, in
 order (`index = none` stands for `-1`):
 ```
-if parent_graph_node: graph.add((parent_graph_node, has_child, graph_node))
+if parent_graph_node is not None: graph.add((parent_graph_node, has_child, graph_node))
 if hasattr(tree_node, "kind"): graph.add((graph_node, kind, Literal(tree_node.kind)))
 graph.add((graph_node, name, Literal(tree_node.name)))
 if index >= 0: graph.add((graph_node, index, Literal(index)))
 ``` -/
 def rdfNodeAdds (parent : Option Subj) (n : T) (index : Option Nat) : List Triple :=
   (match parent with
-    | some p => if p.truthy then [Triple.hasChild p n.did] else []
+    | some p => [Triple.hasChild p n.did]
     | none => [])
   ++ (match n.kind with | some k => [Triple.kind n.did k] | none => [])
   ++ [Triple.name (.lit n.did) n.name]
